@@ -51,6 +51,13 @@ def round_trip(msg_name, params, data, at_end=False):
         setattr(p, ds_kw, bio)
     msg = getattr(DM, cls_name)()
     msg.primitive_to_message(p)
+    # (0000,0000): the number of bytes of the command set that follow the group length element (PS3.7 6.3.1) - as the peer's
+    # own parser will see them: every element after the first 12 bytes (tag 4 + length 4 + UL value 4) of the encoded command set
+    from pynetdicom.dsutils import encode as _enc
+    wire = _enc(msg.command_set, True, True)
+    announced = msg.command_set.get("CommandGroupLength")
+    if wire is None or wire[:4] != b"\x00\x00\x00\x00" or announced != len(wire) - 12:
+        return f"Command Group Length announces {announced!r} bytes, {None if wire is None else len(wire) - 12} follow it"
     rx = DM.DIMSEMessage()
     done_ = False
     for pdata in msg.encode_msg(1, 64):
